@@ -480,6 +480,12 @@ func evaluate(rep *vh.Report, stream, path string, dc *docCase, ups []*proxy.Ups
 		rep.Count("documents_wellformed_by_generator", 1)
 	}
 	w := func() *witness { return &witness{Doc: dc, Path: path} }
+	// which block is "the selected cluster's" depends on the cluster NAME: disagreements that involve the
+	// cluster block carry the class of the name (exact-match selection is the reference)
+	clHint := ""
+	if dc.ClusterCl != "" && dc.ClusterCl != "plain-lowercase" {
+		clHint = " cluster-name=" + dc.ClusterCl
+	}
 	if pan != nil {
 		x := w()
 		x.Error = fmt.Sprint(pan)
@@ -488,6 +494,7 @@ func evaluate(rep *vh.Report, stream, path string, dc *docCase, ups []*proxy.Ups
 		rep.Violate(stream, dc.Index, "loader: panic input="+cls, "the loader panicked instead of returning an error ("+cls+"): "+fmt.Sprint(pan), x)
 		return
 	}
+	rep.Count("documents_cluster_name:"+dc.ClusterCl, 1)
 	ref := resolveDoc(dc.YAML, dc.Cluster, dc.Vars, dc.Env, false)
 	if ref.BothOpts {
 		rep.Count("documents_both_blocks_with_options", 1)
@@ -637,7 +644,7 @@ func evaluate(rep *vh.Report, stream, path string, dc *docCase, ups []*proxy.Ups
 			}
 			x := w()
 			x.Expected = e.summary()
-			rep.Violate(stream, dc.Index, "resolve: upstream-missing site="+e.Site,
+			rep.Violate(stream, dc.Index, "resolve: upstream-missing site="+e.Site+clHint,
 				fmt.Sprintf("the reference resolves an upstream service=%q from=%q that the loader did not return", e.Service, e.From), x)
 			continue
 		}
@@ -664,10 +671,10 @@ func evaluate(rep *vh.Report, stream, path string, dc *docCase, ups []*proxy.Ups
 		// route fields
 		rep.Count("fields_compared", 3)
 		if a.RouteConfig.To != e.To {
-			report("to", "resolve: field-mismatch field=to site="+e.Site, fmt.Sprintf("%q", e.To), fmt.Sprintf("%q", a.RouteConfig.To))
+			report("to", "resolve: field-mismatch field=to site="+e.Site+clHint, fmt.Sprintf("%q", e.To), fmt.Sprintf("%q", a.RouteConfig.To))
 		}
 		if a.RouteConfig.Type != e.Type {
-			report("type", "resolve: field-mismatch field=type site="+e.Site, fmt.Sprintf("%q", e.Type), fmt.Sprintf("%q", a.RouteConfig.Type))
+			report("type", "resolve: field-mismatch field=type site="+e.Site+clHint, fmt.Sprintf("%q", e.Type), fmt.Sprintf("%q", a.RouteConfig.Type))
 		}
 		switch r := a.Route.(type) {
 		case *proxy.SimpleRoute:
@@ -738,6 +745,9 @@ func evaluate(rep *vh.Report, stream, path string, dc *docCase, ups []*proxy.Ups
 				continue
 			}
 			sig := fmt.Sprintf("resolve: field-mismatch field=%s stated-in=%s site=%s", f, rf.src, e.Site)
+			if rf.src == "cluster" {
+				sig += clHint
+			}
 			if altExplains && (e.Parent < 0 || familySeen[fmt.Sprintf("%d/%s", e.Parent, f)]) {
 				if _, adc, _, _, _ := fieldCheck(altE, f, a); adc == "" {
 					sig = "resolve: cluster-options-drop-default-options field=" + f
@@ -763,7 +773,7 @@ func evaluate(rep *vh.Report, stream, path string, dc *docCase, ups []*proxy.Ups
 		x := w()
 		v := view(a)
 		x.Actual = &v
-		rep.Violate(stream, dc.Index, "resolve: unexpected-upstream", fmt.Sprintf("the loader returned an upstream service=%q from=%q that the reference does not resolve", a.Service, a.RouteConfig.From), x)
+		rep.Violate(stream, dc.Index, "resolve: unexpected-upstream"+clHint, fmt.Sprintf("the loader returned an upstream service=%q from=%q that the reference does not resolve", a.Service, a.RouteConfig.From), x)
 	}
 }
 
@@ -857,6 +867,19 @@ func curated() []curatedDoc {
 	} {
 		out = append(out, curatedDoc{name: m.name, cluster: "prod", env: stdEnv, yaml: m.yaml})
 	}
+	clusterDoc := "- service: wit\n  default:\n    from: wit.sso.example.com\n    to: wit.internal.example.org\n    options:\n      allowed_groups:\n        - everyone@corp.test\n" +
+		"  %s:\n    options:\n      allowed_groups:\n        - admins@corp.test\n      skip_auth_regex:\n        - ^/health$\n" +
+		"- service: only\n  %s:\n    from: only.sso.example.com\n    to: only.internal.example.org\n"
+	for _, m := range []struct{ name, selected, key string }{
+		{"cluster-name-mixed-case", "usEast1", "usEast1"},
+		{"cluster-name-upper-case", "EU", "EU"},
+		{"cluster-name-padded-selected-name", " prod", "prod"},
+		{"cluster-name-padded-block-key", " prod ", "' prod '"},
+	} {
+		out = append(out, curatedDoc{name: m.name, cluster: m.selected, env: stdEnv, yaml: fmt.Sprintf(clusterDoc, m.key, m.key)})
+	}
+	out = append(out, curatedDoc{name: "cluster-name-case-twins", cluster: "Prod", env: stdEnv, yaml: "- service: wit\n  default:\n    from: wit.sso.example.com\n    to: wit.internal.example.org\n" +
+		"  prod:\n    options:\n      allowed_groups:\n        - lower@corp.test\n  Prod:\n    options:\n      allowed_groups:\n        - title@corp.test\n  PROD:\n    options:\n      allowed_groups:\n        - upper@corp.test\n"})
 	values := map[string]string{
 		"header_overrides":        "\n        X-Frame-Options: DENY",
 		"inject_request_headers":  "\n        Authorization: Basic dXNlcjpwYXNz",
@@ -891,7 +914,7 @@ func caseFor(env vh.Env, stream string, i int, cur []curatedDoc, malformedPct in
 		for k, v := range c.vars {
 			vars[k] = v
 		}
-		return &docCase{Index: i, YAML: c.yaml, Cluster: c.cluster, Scheme: "http", Vars: vars, Env: c.env, Shape: "curated:" + c.name, Curated: c.name}
+		return &docCase{Index: i, YAML: c.yaml, Cluster: c.cluster, ClusterCl: classifyCluster(c.cluster), Scheme: "http", Vars: vars, Env: c.env, Shape: "curated:" + c.name, Curated: c.name}
 	}
 	dc := genDoc(vh.CaseRNG(env.Seed, stream, i), i, malformedPct)
 	if full && dc.Env.Nil {
@@ -1031,7 +1054,8 @@ var behModes = []string{"default-only", "cluster-states-unrelated-option", "clus
 
 func behave(rep *vh.Report, env vh.Env, i int) {
 	r := vh.CaseRNG(env.Seed, "c14-behave", i)
-	bc := &behCase{Index: i, Cluster: "verif"}
+	clusterName := []string{"verif", "Verif", "usEast1", "EU", "us-east-1", "verif"}[i%6]
+	bc := &behCase{Index: i, Cluster: clusterName}
 	top := sq()
 	var backends []string
 	n := 2 + r.Intn(2)
@@ -1091,7 +1115,11 @@ func behave(rep *vh.Report, env vh.Env, i int) {
 		}
 		s.add("default", d)
 		if len(c.keys) > 0 {
-			s.add("verif", c)
+			s.add(clusterName, c)
+		}
+		if clusterName != strings.ToLower(clusterName) && r.Intn(2) == 0 {
+			// a decoy block for a cluster whose name differs only by case: everybody's group, everything skipped
+			s.add(strings.ToLower(clusterName), mp().add("options", mp().add("allowed_groups", sq(sc("grp-nobody"))).add("skip_auth_regex", sq(sc("'^/private/.*$'")))))
 		}
 		top.items = append(top.items, s)
 		bc.Svcs = append(bc.Svcs, sv)
@@ -1113,9 +1141,9 @@ func behave(rep *vh.Report, env vh.Env, i int) {
 		modes = append(modes, s.Mode)
 	}
 	sort.Strings(modes)
-	shape := fmt.Sprintf("behave|%s|envgroups=%v", strings.Join(modes, ","), len(bc.EnvGroups) > 0)
+	shape := fmt.Sprintf("behave|cl(%s)|%s|envgroups=%v", classifyCluster(clusterName), strings.Join(modes, ","), len(bc.EnvGroups) > 0)
 
-	ps, err := sut.NewProxyStack(sut.ProxyOpts{RawYAML: doc, ExtraBackends: backends, DefaultGroups: bc.EnvGroups, Cluster: "verif"})
+	ps, err := sut.NewProxyStack(sut.ProxyOpts{RawYAML: doc, ExtraBackends: backends, DefaultGroups: bc.EnvGroups, Cluster: clusterName})
 	rep.Eval()
 	rep.Count("behaviour_stacks", 1)
 	if err != nil {
@@ -1133,8 +1161,8 @@ func behave(rep *vh.Report, env vh.Env, i int) {
 	bc.YAML = ps.YAML
 	rep.Distinct(shape)
 	envS := envSpec{Groups: bc.EnvGroups, Timeout: 10 * time.Second, Reset: 60 * time.Second, Slug: ps.Slug, Cookie: ps.CookieName}
-	ref := resolveDoc(ps.YAML, "verif", nil, envS, false)
-	alt := resolveDoc(ps.YAML, "verif", nil, envS, true)
+	ref := resolveDoc(ps.YAML, clusterName, nil, envS, false)
+	alt := resolveDoc(ps.YAML, clusterName, nil, envS, true)
 	if ref.ParseErr != "" || ref.Unknown != "" || len(alt.Ups) != len(ref.Ups) {
 		rep.Inconclusive("behavioural document not interpreted by the reference: " + ref.ParseErr + ref.Unknown)
 		return
@@ -1279,6 +1307,9 @@ func behave(rep *vh.Report, env vh.Env, i int) {
 				continue
 			}
 			sig := pr.sigGeneric
+			if cl := classifyCluster(clusterName); cl != "plain-lowercase" {
+				sig += " cluster-name=" + cl
+			}
 			if altExplains {
 				sig = "behaviour: cluster-options-drop-default-options field=" + pr.field + " probe=" + pr.cls
 			}
